@@ -9,7 +9,8 @@ Nested style rules (CSS Nesting 1): `parent { d1; child { … }; d2 }` is read a
 `<child under parent> { … }`, `parent { d2 }` in this order (the nested-declarations rule of the current
 specification: declarations keep their place among the nested rules).  What a relative selector `child` means below
 the parent list is again a parameter (`nest`): for `&` = `:is(parent list)` it depends on the parent LIST (its
-specificity is the greatest of the whole list), which is why merging two parents is not always sound.
+specificity is the greatest of the whole list), which is why merging two parents that contain nested rules would
+not be sound (the code refuses it: `containsNestedRules`).
 -/
 import EsbuildModel.Impl.CssRules
 import EsbuildModel.Spec.RuleCascade
@@ -64,6 +65,7 @@ def denoteRule (R : Reading Elem Env Pr Val) (parent : Option (List (Selector El
     | none => [.inert]
   | .other .. => [.inert]                   -- qualified rule with a prelude that is no selector list; @scope (not covered)
   | .keyframes _ => [.inert]
+  | .badDecl _ => [.inert]                  -- the user agent drops what it cannot parse as a declaration
   | .atom _ => [.inert]
   | .comment _ => [.inert]
   | .atImport _ => [.inert]                 -- the linker removes @import rules before this stage
@@ -93,34 +95,5 @@ structure Reading.Sound (R : Reading Elem Env Pr Val) : Prop where
   safe_sel : ∀ c, c.all compoundIsSafe = true → (R.sel c).understood = true
   /-- … and, below a parent list, exactly when it understands the parent list -/
   safe_nest : ∀ S c, c.all compoundIsSafe = true → (R.nest S c).understood = S.all (·.understood)
-
-/-! ### the condition under which merging (and dropping dead rules) is sound – the code does not check it -/
-
-def Rule.isDeclOrComment : Rule → Bool
-  | .decl .. => true
-  | .comment _ => true
-  | _ => false
-
-/-- could the minifier merge this selector list into another one (`isSafeSelectors`) or drop its rule as dead
-(`allSelectorsAreDead`)?  Stated so that it is stable under removing duplicate selectors: some selector is safe, or
-some selector is dead, or the list is empty. -/
-def mayRewrite (sels : List Complex) : Bool :=
-  sels.isEmpty || sels.any (fun c => c.all compoundIsSafe) || sels.any containsDeadSelectors
-
-mutual
-/-- "tame": every style rule that the minifier may merge or drop as dead contains nothing but declarations – no
-nested rule whose `&` would change its meaning when the selector list grows, no nested `@layer` whose declaration
-would be lost with the rule -/
-def tameRule : Rule → Bool
-  | .sel sels body => (!mayRewrite sels || body.all Rule.isDeclOrComment) && tameRules body
-  | .media _ body => tameRules body
-  | .layerBlock _ _ body => tameRules body
-  | .known _ _ body => tameRules body
-  | .other _ _ body => tameRules body
-  | _ => true
-def tameRules : List Rule → Bool
-  | [] => true
-  | r :: rest => tameRule r && tameRules rest
-end
 
 end EsbuildModel.CssRules
